@@ -886,7 +886,7 @@ inline time_t time_to_epoch (const tm& ltm, int utcdiff=0)
   \return ticks */
 inline Tickval::ticks epoch_to_ticks(time_t secs)
 {
-	const time_t lim(std::numeric_limits<Tickval::ticks>::max() / Tickval::billion);
+	const time_t lim(std::numeric_limits<Tickval::ticks>::max() / Tickval::billion - 100); // headroom for the sub-second part
 	return (secs > lim ? lim : secs < -lim ? -lim : secs) * Tickval::billion;
 }
 
